@@ -90,6 +90,9 @@ func walkReal(e formula.Expression, path string, out map[string]realNode) {
 		}
 	case *formula.SelectorExpression:
 		sub(0, n.Expression)
+		if n.Name != nil {
+			out[path+"/9"] = realNode{n.Name, nil}
+		}
 	case *formula.CallExpression:
 		sub(0, n.Expression)
 		if n.Arguments != nil {
@@ -172,6 +175,9 @@ func (rangesFam) Check(vars map[string]any) Result {
 			r.Observed = fmt.Sprintf("node %s range out of the text", key)
 			r.Site = "ranges:bounds"
 			return r
+		}
+		if rn.expr == nil {
+			continue // a member name is not an expression: ranges only
 		}
 		// the node's own text parses to the same subtree
 		subObs, _ := ParseObserve(text[rn.n.Pos():rn.n.End()])
